@@ -1,2 +1,77 @@
--- stub: driver for C09 not written yet
-def main : IO Unit := pure ()
+import CMacVerif.Model.RestartCodec
+import CMacVerif.Gen.RestartSchemas
+import CMacVerif.Util.Bits
+/-!
+Driver of C09: the Lean reader (`decode` with the generated READ schema) is run on bytes the REAL code
+wrote (a component written by harness/c09.cpp, or a restart.dump of the real binary), the decoded
+value is re-encoded with the generated WRITE schema, and the size log the C++ writer produces under
+`-DRESTARTWRITER_INFO` is reproduced from the decoded value.
+
+op lines:
+  comp <Class> <case> <path> ...   -> comp <Class> <case> bytes=<consumed> fnv=<fnv of re-encoded bytes> info=<rle size log>
+  dump <path> <opt0> <opt1>        -> dump bytes=<consumed> rest=<left over> fnv=<…> leaves=<n> conf=<bool>
+-/
+open CMacVerif CMacVerif.Util CMacVerif.RestartCodec CMacVerif.Gen.RestartSchemas
+
+def fnv (bs : Bytes) : UInt64 :=
+  bs.foldl (fun h b => (h ^^^ b.toUInt64) * 1099511628211) 14695981039346656037
+
+def rle (l : List String) : String :=
+  let rec go : List String → Option (String × Nat) → List String → List String
+    | [], none, acc => acc
+    | [], some (t, n), acc => (if n = 1 then t else s!"{t}*{n}") :: acc
+    | x :: xs, none, acc => go xs (some (x, 1)) acc
+    | x :: xs, some (t, n), acc =>
+      if x == t then go xs (some (t, n + 1)) acc
+      else go xs (some (x, 1)) ((if n = 1 then t else s!"{t}*{n}") :: acc)
+  ",".intercalate (go l none []).reverse
+
+def findSch (name : String) : Option (Sch × Sch) :=
+  match all.find? (fun e => e.1 == name) with
+  | some e => some e.2
+  | none => none
+
+def readBytes (path : String) : IO (Option Bytes) := do
+  try
+    let b ← IO.FS.readBinFile path
+    pure (some (b.toList.map (·.toNat)))
+  catch _ => pure none
+
+def answer (ws : List String) : IO String := do
+  match ws with
+  | "comp" :: cls :: case :: path :: _ =>
+    match findSch cls, (← readBytes path) with
+    | some (w, r), some bs =>
+      match decode r {} bs with
+      | some (v, rest) =>
+        let re := encode w v
+        let tag := if conf w {} v then "conforming" else "NOT-conforming"
+        pure s!"comp {cls} {case} bytes={bs.length - rest.length} fnv={fnv re} info={rle (info w v)} #{tag}"
+      | none => pure s!"comp {cls} {case} decode-failed"
+    | none, _ => pure s!"comp {cls} {case} no-such-schema"
+    | _, none => pure s!"comp {cls} {case} no-such-file"
+  | ["dump", path, o0, o1] =>
+    match findSch "do_simulation", (← readBytes path) with
+    | some (w, r), some bs =>
+      let env : Env := { opts := [nat! o0, nat! o1] }
+      match decode r env bs with
+      | some (v, rest) =>
+        let re := encode w v
+        pure s!"dump bytes={bs.length - rest.length} rest={rest.length} fnv={fnv re} leaves={leaves v} conf={conf w env v}"
+      | none => pure "dump decode-failed"
+    | _, _ => pure "dump no-such-file-or-schema"
+  | ["list"] => pure ("list " ++ " ".intercalate (all.map (·.1)))
+  | _ => pure "bad-op"
+
+partial def loopIO (h : IO.FS.Stream) (out : IO.FS.Stream) : IO Unit := do
+  let line ← h.getLine
+  if line.isEmpty then return ()
+  let o ← answer (words line)
+  out.putStrLn o
+  loopIO h out
+
+def main : IO Unit := do
+  let i ← IO.getStdin
+  let o ← IO.getStdout
+  loopIO i o
+  o.flush
